@@ -226,7 +226,7 @@ inductive DecodeOut
   | none (d : Dec) (buf : Bytes)                  -- `Ok(None)`
   | item (i : Item) (d : Dec) (buf : Bytes)       -- `Ok(Some(i))`
   | fail (e : Err) (d : Dec) (buf : Bytes)        -- `Err(e)`
-  | panic (s : Site)
+  | panic (s : Site) (d : Dec) (buf : Bytes)      -- aborted in state `d` with `buf` buffered
 deriving Repr, DecidableEq
 
 /-- `ZmqCodec::decode` (the loop form): run transitions until an item, an error,
@@ -238,7 +238,7 @@ def decode (d : Dec) (buf : Bytes) : DecodeOut :=
     | .cont d' buf' => decode d' buf'
     | .item i d' buf' => .item i d' buf'
     | .fail e d' buf' => .fail e d' buf'
-    | .panic s => .panic s
+    | .panic s => .panic s d buf
 termination_by mu d buf
 decreasing_by exact step_cont_mu hs
 
@@ -267,9 +267,43 @@ def run (d : Dec) (buf : Bytes) : RunOut :=
   match h : decode d buf with
   | .none d' buf' => { items := [], error := none, panic := none, dec := d', rest := buf' }
   | .fail e d' buf' => { items := [], error := some e, panic := none, dec := d', rest := buf' }
-  | .panic s => { items := [], error := none, panic := some s, dec := d, rest := buf }
+  | .panic s d' buf' => { items := [], error := none, panic := some s, dec := d', rest := buf' }
   | .item i d' buf' => let r := run d' buf'; { r with items := i :: r.items }
 termination_by mu d buf
 decreasing_by exact decode_item_mu h
+
+end Zmq
+
+namespace Zmq
+
+/-! ### a connection's read side: decoder + read buffer, fed chunk by chunk
+
+`feed` = "a read returned `chunk`; poll the framed reader until it is `Pending`".
+The first error (or panic) ends the stream, as it does for a connection whose
+socket drops it on error. -/
+
+structure Conn where
+  dec : Dec
+  buf : Bytes
+  error : Option Err
+  panic : Option Site
+deriving Repr, DecidableEq
+
+def Conn.init : Conn := ⟨Dec.init, [], none, none⟩
+
+def Conn.dead (c : Conn) : Bool := c.error.isSome || c.panic.isSome
+
+def Conn.feed (c : Conn) (chunk : Bytes) : List Item × Conn :=
+  if c.dead then ([], { c with buf := c.buf ++ chunk })
+  else
+    let r := run c.dec (c.buf ++ chunk)
+    (r.items, ⟨r.dec, r.rest, r.error, r.panic⟩)
+
+def Conn.feedAll : Conn → List Bytes → List Item × Conn
+  | c, [] => ([], c)
+  | c, ch :: chs =>
+    let r1 := c.feed ch
+    let r2 := Conn.feedAll r1.2 chs
+    (r1.1 ++ r2.1, r2.2)
 
 end Zmq
